@@ -124,26 +124,42 @@ def handlePoints (j : Json) : Except String Verdict := do
   let tags := st.tags ++ (if !canonicalB dflt d t then ["residue"] else [])
   pure { agree := st.okAgree, spec := st.okSpec, model := treeToJson d st.tree, tags, why := st.why }
 
-/-- positions in a single fiber, with optional start_pos -/
+/-- positions in a single fiber, with optional start_pos; `ref` = getPositionRef (creates the element) -/
 def handlePos (j : Json) : Except String Verdict := do
   let f ← fTree j "t" 1
   let l := (show List (Int × T 0) from f)
   if !sortedB l then return { agree := true, spec := true, tags := ["OUT_OF_MODEL"] }
   let c ← fInt j "c"
   let sp := (fInt j "sp").toOption
+  let isRef := match j.getObjVal? "ref" with | .ok (Json.bool true) => true | _ => false
   let impl ← field j "impl"          -- position or null
   let legal := match sp with | some s => legalStart l s.toNat c | none => true
   if !legal then return { agree := true, spec := true, tags := ["illegal-start"] }
   -- model: the code's search (linear from sp, else lower bound), then the existence test
   let idx := match sp with | some s => coord2posFrom l s.toNat c | none => lowerBound l c
-  let m : Option Nat := match l[idx]? with | some e => if e.1 = c then some idx else none | none => none
-  -- spec: the index of the element with coordinate c, if any (independent of sp)
-  let s : Option Nat := (l.zipIdx.find? (fun e => e.1.1 = c)).map (·.2)
+  let found : Bool := match l[idx]? with | some e => e.1 = c | none => false
   let io : Option Nat := match impl.getNat? with | .ok n => some n | _ => none
-  let isNull := impl.isNull
-  let okShape := isNull || io.isSome
-  pure { agree := okShape && (m == io), spec := okShape && (s == io), model := posJson m,
-         tags := (if sp.isSome then ["start_pos"] else []) ++ (if s.isSome then ["found"] else ["absent"]) }
+  let okShape := impl.isNull || io.isSome
+  let tags := (if sp.isSome then ["start_pos"] else []) ++ (if found then ["found"] else ["absent"]) ++
+    (if isRef then ["posref"] else [])
+  if isRef then
+    -- getPositionRef returns the search position and leaves the element stored there
+    let after ← fTree j "after" 1
+    let la := (show List (Int × T 0) from after)
+    let mAfter := insertIfMissing (0 : Int) l c
+    let dfl := fIntD j "dflt" 0
+    let mAfter' : List (Int × T 0) := if found then l else insertAt l c (dfl : Int)
+    let _ := mAfter
+    let sIdx : Option Nat := (la.zipIdx.find? (fun e => e.1.1 = c)).map (·.2)
+    pure { agree := okShape && (some idx == io) && treeEq 1 (show T 1 from mAfter') after,
+           spec := okShape && io.isSome && (sIdx == io) && sortedB la &&
+             decide ((content dfl 1 after : PMap) = content dfl 1 f),
+           model := jNat idx, tags }
+  else
+    let m : Option Nat := if found then some idx else none
+    -- spec: the index of the element with coordinate c, if any (independent of sp)
+    let s : Option Nat := (l.zipIdx.find? (fun e => e.1.1 = c)).map (·.2)
+    pure { agree := okShape && (m == io), spec := okShape && (s == io), model := posJson m, tags }
 
 def handleC03 (j : Json) : Except String Verdict := do
   match (← fStr j "op") with
